@@ -105,6 +105,7 @@ def describe(p, ans=None):
         out['lean_spec'] = [o - 1 for o in ans['spec'][0]]
         out['lean_code_model'] = 'AttributeError' if ans['code'] is None else [o - 1 for o in ans['code'][0]]
         out['hypotheses'] = {'enteredWF': ans['wf']}
+        out['machine_has_attribute_final'] = p.d.machine_final_attr()
     return out
 
 
@@ -154,6 +155,16 @@ def settle(pend, ex, fails, keep=3):
             raise common.MachineryError('Python and Lean statements of the fires spec disagree: %r' % describe(p, a))
         if other_exception(p):
             bump(ex.stats, 'features', 'transition_aborted_by_other_exception:' + p.entry['out'][1])
+            kinds = [it[0] for it in p.sg.items]
+            if p.entry['out'][0] == 'raised' and 'enter' in kinds and 'after' not in kinds and 'exit' not in kinds[kinds.index('enter'):]:
+                # every on_enter callback of the transition has run and nothing of a later stage: the exception comes
+                # out of the final check / an on_final callback list (recorders never raise)
+                sig = 'C18.monitor.final-stage-raises'
+                bump(ex.stats, 'monitor_rejections', sig)
+                kept[sig] = kept.get(sig, 0) + 1
+                if kept[sig] <= keep:
+                    p.probs = p.probs + ['an exception is raised in the on_final stage: %s %s' % tuple(p.entry['out'][1:3])]
+                    fails.append(Failure('monitor', 'fires-spec', p.case, describe(p, a), signature=sig))
             continue
         # correspondence: the transcription of _final_check vs the implementation
         got_cbs = [c for _o, c in p.info['got']]
@@ -791,8 +802,8 @@ class C18(runner.Check):
              "as return value included) against the declarative fires spec over all configuration trees, flag "
              "placements and entered sets by structural induction: C18_nested_exact at full strength (the check never "
              "raises and schedules exactly the owners that fire; states are paths, so copies of an embedded child "
-             "machine's state are distinct), plus children-first / machine-last / once; the "
-             "defects repaired by 919a36b / 576f1fd / 56c10cf are regression examples in Lean and in the corpus. Tied to /repo by driving HierarchicalMachine and "
+             "machine's state are distinct; the root scope reads nothing from the machine object), plus children-first / machine-last / once; the "
+             "defects repaired by 919a36b / 576f1fd / 56c10cf / 4b253dd are regression examples in Lean and in the corpus. Tied to /repo by driving HierarchicalMachine and "
              "HierarchicalAsyncMachine on random (depth <= 4, exclusive/parallel/partial-parallel) and all small trees, "
              "observing per executed transition the entered set, configuration and recorder calls (coroutine recorders "
              "that really suspend on the async class, with start and end): the fires spec "
@@ -812,7 +823,10 @@ class C18(runner.Check):
     rule = ('nested: random state trees (1-9 states, depth <= 4, exclusive / parallel / partially parallel / initial-less '
             'compounds, parallel children in declared or permuted order) x arbitrary final flags x 0-2 on_final recorders on '
             'every state and the machine x global and scope-local transitions (reflexive, internal, to ancestors / '
-            'descendants, blocked by conditions) + auto transitions x histories of 2-9 events, alternating '
+            'descendants, blocked by conditions) + auto transitions x histories of 2-9 events; on_final callbacks registered at '
+            'construction, through model methods on_final_<state>, or through machine.on_final_<state>(cb) afterwards (states '
+            'without constructor callbacks get no on_final argument); separate model or the machine as its own model; event '
+            'names incl. \'final\'; optionally a second machine with its own dynamic registration alive; alternating '
             'HierarchicalMachine / HierarchicalAsyncMachine (plain and coroutine recorders); small scope: every ordered '
             'forest with <= N states x every kind of every compound x every final-flag placement x to_Y;to_Z for all '
             'Y,Z; one child machine embedded under several regions; flat: descriptions of harness/flat.py with final states '
